@@ -11,7 +11,7 @@ theorem closePipe_pair {s : State} {p : Nat} {pp : Pipe} (hg : getPipe s p = som
 
 theorem ev_pipeDrop {V : Variant} {v1 : Bool} {sS sR : List Bytes} {s : State} {j : PairJ}
     (hA : All V s) (hR : R' V v1 sS sR s j) (p : Nat) (hA' : All V (stepLive V s (.pipeDrop p)).1) :
-    R' V v1 sS sR (stepLive V s (.pipeDrop p)).1 (pairStep j (.pipeDrop p) (stepLive V s (.pipeDrop p)).2) := by
+    R' V v1 sS sR (stepLive V s (.pipeDrop p)).1 (pairStepOld j (.pipeDrop p) (stepLive V s (.pipeDrop p)).2) := by
   simp only [stepLive] at hA' ⊢
   cases hg : getPipe s p with
   | none =>
@@ -97,7 +97,7 @@ theorem pairPre_sendDone_ok (j0 : PairJ) (p : Nat) (outs : List Out) (hok : outs
 theorem ev_sendDone {V : Variant} {v1 : Bool} {sS sR : List Bytes} {s : State} {j : PairJ}
     (hA : All V s) (hR : R' V v1 sS sR s j) (p rv : Nat) (hA' : All V (stepLive V s (.sendDone p rv)).1) :
     R' V v1 sS sR (stepLive V s (.sendDone p rv)).1
-      (pairStep j (.sendDone p rv) (stepLive V s (.sendDone p rv)).2) := by
+      (pairStepOld j (.sendDone p rv) (stepLive V s (.sendDone p rv)).2) := by
   simp only [stepLive] at hA' ⊢
   have hplain : ∀ j0 : PairJ, pairPre false j0 (.sendDone p rv) [.rv (-1)] = (j0, .none) := by
     intro j0; simp [pairPre]
